@@ -193,6 +193,9 @@ let pc_scenario a =
       match split '.' tok with
       | "B" :: _ :: hx :: _ -> "b" ^ hx
       | "B" :: _ -> "-"
+      (* Z.<n>.<log>: the seal log of the real run (key fingerprint / nonce pairs; the model has random-free symbolic keys and no
+         counterpart), handed over by the model line for the no-reuse oracle; echoed *)
+      | "Z" :: _ :: lg :: _ -> "z" ^ lg
       | _ -> pc_out o) a outs)
 
 (* ---- NodeInfo codec ---------------------------------------------------------------------- *)
